@@ -211,3 +211,196 @@ theorem red_core (idx : Nat) (r : RedIn) (lead : Sec) (acc : Tgt) (σ : Store)
   · next h => rw [← hσ0def, Store.set_apply, if_neg h]
 
 end C06
+
+namespace C06
+open MiniF
+/-- freshness of the generated names `idx`, `tmp` and of the placeholder `hole` -/
+structure RedFresh (idx tmp : Nat) (r : RedIn) : Prop where
+  idx_tmp : idx ≠ tmp
+  idx_hole : idx ≠ r.hole
+  tmp_hole : tmp ≠ r.hole
+  idx_fresh : idx ∉ r.tgt.sym :: (r.tgt.ivars ++ vars r.ctx ++ r.expr.allvars ++ maskVars r.mask)
+  tmp_fresh : tmp ∉ r.tgt.sym :: (r.tgt.ivars ++ vars r.ctx ++ r.expr.allvars ++ maskVars r.mask)
+  hole_fresh : r.hole ∉ r.tgt.sym :: (r.tgt.ivars ++ r.expr.allvars ++ maskVars r.mask)
+  hole_scalar : r.hole ∉ arrs r.ctx
+
+theorem transRed_ok (idx tmp : Nat) (r : RedIn) (lead : Sec) (rest : List Sec) (s : Stmt)
+    (hlead : r.expr.secs = lead :: rest) (ht : transRed idx tmp r = .ok s) :
+    (∀ s ∈ r.expr.secs, s.st = lead.st) ∧ (∀ s ∈ maskSecs r.mask, s.st = lead.st) ∧
+    s = (let acc : Tgt := if r.increment then .sc tmp else r.tgt
+         let core := Stmt.seq (acc.assign (r.kind.init r.huge)) (redLoop idx r lead acc)
+         if r.increment || decide (r.ctx ≠ .var r.hole) then
+           .seq core (r.tgt.assign (subst r.hole acc.ref r.ctx)) else core) := by
+  unfold transRed at ht
+  split at ht; · simp at ht
+  rw [hlead] at ht
+  simp only at ht
+  split at ht; · simp at ht
+  rename_i hv
+  have hstr : strideOK lead (r.synthetic lead).rhs = true := by
+    cases h : strideOK lead (r.synthetic lead).rhs
+    · exfalso
+      have : (r.synthetic lead).lhs = lead := rfl
+      have hb : (r.synthetic lead).badCall = false := rfl
+      simp [validateAA, this, hb, h] at hv
+    · rfl
+  refine ⟨?_, ?_, ?_⟩
+  · intro s hs
+    simp only [strideOK, List.all_eq_true, decide_eq_true_eq, RedIn.synthetic] at hstr
+    cases hm : r.mask with
+    | none => rw [hm] at hstr; exact hstr s hs
+    | some m => rw [hm] at hstr; exact hstr s (by simp [AExpr.secs, hs])
+  · intro s hs
+    simp only [strideOK, List.all_eq_true, decide_eq_true_eq, RedIn.synthetic] at hstr
+    cases hm : r.mask with
+    | none => rw [hm] at hs; simp [maskSecs] at hs
+    | some m => rw [hm] at hstr hs; exact hstr s (by simp only [maskSecs] at hs; simp [AExpr.secs, hs])
+  · split at ht <;> simp_all
+
+
+theorem increment_false (r : RedIn) (h : r.increment = false) :
+    r.tgt.sym ∉ vars r.ctx ∧ r.tgt.sym ∉ r.expr.allvars ∧ r.tgt.sym ∉ maskVars r.mask ∧ r.tgt.sym ∉ r.tgt.ivars := by
+  simp only [RedIn.increment, List.contains_eq_mem, decide_eq_false_iff_not, List.mem_append, not_or] at h
+  exact ⟨h.1.1.1, h.1.1.2, h.1.2, h.2⟩
+
+theorem reduction2loop_sound_aux (idx tmp : Nat) (r : RedIn) (lead : Sec) (rest : List Sec) (s : Stmt)
+    (hlead : r.expr.secs = lead :: rest) (ht : transRed idx tmp r = .ok s)
+    (hf : RedFresh idx tmp r) (σ : Store) :
+    AgreeOn (fun y => y ≠ idx ∧ y ≠ tmp ∧ y ≠ r.hole) (exec s σ) (execRedOrig r lead σ) := by
+  obtain ⟨hstride, hstrideM, hs⟩ := transRed_ok idx tmp r lead rest s hlead ht
+  have hleadmem : lead ∈ r.expr.secs := by rw [hlead]; simp
+  have hif := hf.idx_fresh
+  have htf := hf.tmp_fresh
+  have hhf := hf.hole_fresh
+  simp only [List.mem_cons, List.mem_append, not_or] at hif htf hhf
+  obtain ⟨v, hv⟩ : ∃ v, v = redVal r lead σ := ⟨_, rfl⟩
+  -- the original: `tgt = ctx` with the placeholder bound to the value of the intrinsic
+  have horig : execRedOrig r lead σ = (σ.set (r.hole, 0, 0) v).set (r.tgt.loc σ) (eval r.ctx (σ.set (r.hole, 0, 0) v)) := by
+    simp only [execRedOrig, Tgt.exec_assign]
+    rw [← hv, Tgt.loc_agree (t := r.tgt) (σ := σ.set (r.hole, 0, 0) v) (τ := σ) (V := fun y => y ≠ r.hole)
+      (fun x hx (h : x = r.hole) => hhf.2.1.1 (h ▸ hx))
+      (fun y hy i j => Store.set_other _ _ (loc_ne i j hy))]
+  rw [horig]
+  by_cases hinc : r.increment = true
+  · -- accumulate in the temporary, then `tgt = ctx[hole := tmp]`
+    simp only [hinc, if_true, Bool.true_or] at hs
+    subst hs
+    have hcore := red_core idx r lead (.sc tmp) σ hleadmem hstride hstrideM
+      (by simp only [Tgt.sym, Tgt.ivars, List.append_nil, List.mem_append, not_or]; exact ⟨htf.2.1.2, htf.2.2⟩)
+      (Ne.symm hf.idx_tmp)
+      (by simp only [Tgt.ivars, List.append_nil, List.mem_append, not_or]; exact ⟨hif.2.1.2, hif.2.2⟩)
+    simp only [Tgt.loc] at hcore
+    rw [← hv] at hcore
+    rw [show ∀ a b, exec (Stmt.seq a b) σ = exec b (exec a σ) from fun _ _ => rfl]
+    generalize exec (.seq ((Tgt.sc tmp).assign (r.kind.init r.huge)) (redLoop idx r lead (.sc tmp))) σ = σ1 at hcore ⊢
+    intro y hy i j
+    simp only [exec, Tgt.exec_assign, Tgt.ref]
+    rw [eval_subst _ _ _ _ hf.hole_scalar]
+    have h1 : σ1 (tmp, 0, 0) = v := by rw [hcore tmp (Ne.symm hf.idx_tmp) 0 0, Store.set_same]
+    have hag : AgreeOn (fun y => y ≠ idx ∧ y ≠ tmp) (σ1.set (r.hole, 0, 0) v) (σ.set (r.hole, 0, 0) v) := by
+      apply AgreeOn.set
+      intro y hy i j
+      rw [hcore y hy.1 i j, Store.set_other _ _ (loc_ne i j hy.2)]
+    have hctx : eval r.ctx (σ1.set (r.hole, 0, 0) (eval (.var tmp) σ1)) = eval r.ctx (σ.set (r.hole, 0, 0) v) := by
+      simp only [eval, h1]
+      exact eval_agree (fun x hx => ⟨fun h => hif.2.1.1.2 (h ▸ hx), fun h => htf.2.1.1.2 (h ▸ hx)⟩) hag
+    have hloc : r.tgt.loc σ1 = r.tgt.loc σ :=
+      Tgt.loc_agree (V := fun y => y ≠ idx ∧ y ≠ tmp)
+        (fun x hx => ⟨fun h => hif.2.1.1.1 (h ▸ hx), fun h => htf.2.1.1.1 (h ▸ hx)⟩)
+        (fun y hy i j => by rw [hcore y hy.1 i j, Store.set_other _ _ (loc_ne i j hy.2)])
+    rw [hctx, hloc]
+    simp only [Store.set_apply]
+    split
+    · rfl
+    · rw [if_neg (loc_ne i j hy.2.2), hcore y hy.1 i j, Store.set_other _ _ (loc_ne i j hy.2.1)]
+  · -- accumulate in the target itself
+    have hinc' : r.increment = false := by simpa using hinc
+    obtain ⟨hn1, hn2, hn3, hn4⟩ := increment_false r hinc'
+    simp only [hinc', Bool.false_eq_true, if_false, Bool.false_or] at hs
+    have hcore := red_core idx r lead r.tgt σ hleadmem hstride hstrideM
+      (by simp only [List.mem_append, not_or]; exact ⟨⟨hn2, hn3⟩, hn4⟩)
+      (Ne.symm hif.1)
+      (by simp only [List.mem_append, not_or]; exact ⟨⟨hif.2.1.2, hif.2.2⟩, hif.2.1.1.1⟩)
+    rw [← hv] at hcore
+    have hT1 : (r.tgt.loc σ).1 = r.tgt.sym := Tgt.loc_fst _ _
+    by_cases hctxv : r.ctx = .var r.hole
+    · -- no trailing statement
+      simp only [hctxv, ne_eq, not_true_eq_false, decide_false, Bool.false_eq_true, if_false] at hs
+      subst hs
+      intro y hy i j
+      rw [hcore y hy.1 i j, hctxv]
+      simp only [eval, Store.set_same, Store.set_apply]
+      split
+      · rfl
+      · rw [if_neg (loc_ne i j hy.2.2)]
+    · simp only [ne_eq, hctxv, not_false_eq_true, decide_true, if_true] at hs
+      subst hs
+      rw [show ∀ a b, exec (Stmt.seq a b) σ = exec b (exec a σ) from fun _ _ => rfl]
+      generalize exec (.seq (r.tgt.assign (r.kind.init r.huge)) (redLoop idx r lead r.tgt)) σ = σ1 at hcore ⊢
+      intro y hy i j
+      simp only [exec, Tgt.exec_assign]
+      rw [eval_subst _ _ _ _ hf.hole_scalar]
+      have hag0 : AgreeOn (fun y => y ≠ idx ∧ y ≠ r.tgt.sym) σ1 σ := by
+        intro y hy i j
+        rw [hcore y hy.1 i j, Store.set_other]
+        intro h; apply hy.2; rw [← hT1, ← h]
+      have hloc : r.tgt.loc σ1 = r.tgt.loc σ :=
+        Tgt.loc_agree (fun x hx => ⟨fun h => hif.2.1.1.1 (h ▸ hx), fun h => hn4 (h ▸ hx)⟩) hag0
+      have h1 : eval r.tgt.ref σ1 = v := by
+        rw [Tgt.eval_ref, hloc]
+        have hne : (r.tgt.loc σ).1 ≠ idx := by rw [hT1]; exact Ne.symm hif.1
+        generalize r.tgt.loc σ = L at hne hcore
+        obtain ⟨a, b, c⟩ := L
+        rw [hcore a hne b c, Store.set_same]
+      have hctx : eval r.ctx (σ1.set (r.hole, 0, 0) (eval r.tgt.ref σ1)) = eval r.ctx (σ.set (r.hole, 0, 0) v) := by
+        rw [h1]
+        exact eval_agree (fun x hx => ⟨fun h => hif.2.1.1.2 (h ▸ hx), fun h => hn1 (h ▸ hx)⟩) (hag0.set _ _)
+      rw [hctx, hloc]
+      simp only [Store.set_apply]
+      split
+      · rfl
+      · next h => rw [if_neg (loc_ne i j hy.2.2), hcore y hy.1 i j, Store.set_apply, if_neg h]
+
+end C06
+
+namespace C06
+open MiniF
+
+theorem dot_iters (res i : Nat) (v1 v2 : Vec) (σ : Store) (hlb : v1.lb = v2.lb) (hri : res ≠ i)
+    (hr : res ≠ v1.arr ∧ res ≠ v2.arr) (hi2 : i ≠ v1.arr ∧ i ≠ v2.arr) (n : Nat) :
+    AgreeOn (fun y => y ≠ i)
+      (iters (exec (.assign res (.bin .add (.var res) (.bin .mul (.idx1 v1.arr (.var i)) (.idx1 v2.arr (.var i))))))
+        i v1.lb 1 n 0 (σ.set (res, 0, 0) 0))
+      (σ.set (res, 0, 0) (foldRed .add (fun k => σ (v1.arr, v1.lb + k, 0) * σ (v2.arr, v2.lb + k, 0)) (fun _ => 1) n 0)) := by
+  induction n with
+  | zero => exact AgreeOn.refl _ _
+  | succ n ih =>
+    rw [iters_succ_last]
+    simp only [Int.zero_add, Int.mul_one, foldRed]
+    rw [if_pos (by decide)]
+    generalize iters _ i v1.lb 1 n 0 (σ.set (res, 0, 0) 0) = τn at ih ⊢
+    generalize foldRed .add (fun k => σ (v1.arr, v1.lb + k, 0) * σ (v2.arr, v2.lb + k, 0)) (fun _ => 1) n 0 = an at ih ⊢
+    have hget : ∀ a b c, a ≠ i → (τn.set (i, 0, 0) (v1.lb + n)) (a, b, c) = (σ.set (res, 0, 0) an) (a, b, c) := by
+      intro a b c ha
+      rw [Store.set_other _ _ (loc_ne b c ha)]; exact ih a ha b c
+    intro y hy a b
+    simp only [exec, eval, evalBin, Store.set_same]
+    rw [hget res 0 0 hri, Store.set_same, hget v1.arr _ _ (Ne.symm hi2.1), hget v2.arr _ _ (Ne.symm hi2.2),
+      Store.set_other _ _ (loc_ne _ _ (Ne.symm hr.1)), Store.set_other _ _ (loc_ne _ _ (Ne.symm hr.2)), ← hlb]
+    simp only [Store.set_apply]
+    split
+    · rfl
+    · next h => rw [if_neg (loc_ne a b hy), ih y hy a b, Store.set_apply, if_neg h]
+
+theorem dot_sound_partial (res i : Nat) (v1 v2 : Vec) (s : Asg) (hlb : v1.lb = v2.lb) (hri : res ≠ i)
+    (hr : res ≠ v1.arr ∧ res ≠ v2.arr) (hi : i ∉ s.vars) (hi2 : i ≠ v1.arr ∧ i ≠ v2.arr) (σ : Store) :
+    AgreeOn (fun y => y ≠ i) (exec (dot2code res i v1 v2 s) σ) (execDotOrig res v1 v2 s σ) := by
+  simp only [dot2code, execDotOrig]
+  rw [show ∀ a b, exec (Stmt.seq a b) σ = exec b (exec a σ) from fun _ _ => rfl]
+  apply Asg.exec_agree (V := fun y => y ≠ i) (fun y hy h => hi (h ▸ hy))
+  intro y hy a b
+  simp only [dotCode, exec, eval, runIters_eq_iters, dotVal]
+  rw [Store.set_other _ _ (loc_ne a b hy)]
+  exact dot_iters res i v1 v2 σ hlb hri hr hi2 _ y hy a b
+
+end C06
